@@ -284,7 +284,7 @@ Definition splice (c : fcfg) (d : dstate) (dfn : Z) (cs : list chunk) (blob : op
           let '(d4, r) := disk_put c d3 CAS h s (mkStream cid piped false ok piped) rnd in
           match r with
           | None => (d4, SOk)
-          | Some _ => (d4, SErr (match werr with Some x => x | None => EInternal end))
+          | Some e => (d4, SErr (match werr with Some x => x | None => grpc_code e EInternal end))   (* gRPCErrCode(err, Unknown) *)
           end
       end
   end end.
@@ -346,33 +346,38 @@ Record upstream := mkUp {
   up_actual : string;  (* SHA-256 of the delivered bytes (oracle) *)
   up_rnd : string }.
 
+(* one URI: the digest stored, or why not ([Err ENotFound]: the URI is unusable / the reply does not
+   match; [Err e]: the disk layer refused the store with class e) *)
 Definition fetch_item (c : fcfg) (d : dstate) (u : upstream) (sri : option string)
-  : dstate * option (string * Z) :=
-  if negb (up_ok u) then (d, None) else
+  : dstate * result (string * Z) :=
+  if negb (up_ok u) then (d, Err ENotFound) else
   let b := up_body u in
   match sri, up_cl u <? 0 with
   | Some h, false =>
       match disk_put c d CAS h (up_cl u) (stream_of b) (up_rnd u) with
-      | (d', None) => (d', Some (h, up_cl u))
-      | (d', Some _) => (d', None)
+      | (d', None) => (d', Ok (h, up_cl u))
+      | (d', Some e) => (d', Err e)
       end
   | _, _ =>
       (* hash or length unknown: read everything, hash it, then store under the computed digest *)
-      if negb (b_clean b) then (d, None) else
-      if (match sri with Some h => negb (String.eqb h (up_actual u)) | None => false end) then (d, None) else
+      if negb (b_clean b) then (d, Err ENotFound) else
+      if (match sri with Some h => negb (String.eqb h (up_actual u)) | None => false end) then (d, Err ENotFound) else
       match disk_put c d CAS (up_actual u) (b_len b) (mkStream (b_cid b) (b_len b) false true (b_len b)) (up_rnd u) with
-      | (d', None) => (d', Some (up_actual u, b_len b))
-      | (d', Some _) => (d', None)
+      | (d', None) => (d', Ok (up_actual u, b_len b))
+      | (d', Some e) => (d', Err e)
       end
   end.
 
+(* the URIs in order; a store refused for lack of space (507) ends the call with RESOURCE_EXHAUSTED,
+   any other failure moves on to the next URI *)
 Fixpoint fetch_uris (c : fcfg) (d : dstate) (us : list upstream) (sri : option string)
   : dstate * status * option (string * Z) :=
   match us with
   | [] => (d, SErr ENotFound, None)
   | u :: t => match fetch_item c d u sri with
-              | (d', Some dg) => (d', SOk, Some dg)
-              | (d', None) => fetch_uris c d' t sri
+              | (d', Ok dg) => (d', SOk, Some dg)
+              | (d', Err EInsufficient) => (d', SErr EInsufficient, None)
+              | (d', _) => fetch_uris c d' t sri
               end
   end.
 
